@@ -130,6 +130,15 @@ func (m *MatchDNS) Match(cx *layer4.Connection) (bool, error) {
 		return false, nil
 	}
 
+	// Ensure the section counts in the header are those of the records actually present
+	// Note: the library silently corrects counts that announce more records than the message holds.
+	if hdr := msgBuf; int(binary.BigEndian.Uint16(hdr[4:6])) != len(msg.Question) ||
+		int(binary.BigEndian.Uint16(hdr[6:8])) != len(msg.Answer) ||
+		int(binary.BigEndian.Uint16(hdr[8:10])) != len(msg.Ns) ||
+		int(binary.BigEndian.Uint16(hdr[10:12])) != len(msg.Extra) {
+		return false, nil
+	}
+
 	// Filter out invalid DNS request messages
 	if len(msg.Question) == 0 || msg.Response || msg.Rcode != dns.RcodeSuccess || msg.Zero {
 		return false, nil
